@@ -146,7 +146,7 @@ PROPS = {
         "shrink_budget": 3,
     },
     "C03": {
-        "lean_modules": ["Props.Facts03", "Props.Gen03m", "Props.GenT03m", "Props.Gen03", "Props.GenT03"],
+        "lean_modules": ["Props.Facts03", "Props.Gen03m", "Props.GenT03m", "Props.Gen03", "Props.GenT03", "Props.Gen04"],
         "groups": [{"name": "C03", "quick": 1200, "thorough": 40000, "workers": 8},
                    # the same worlds and sequences in processes whose cache holds 1, 2, 3 and 5 entries: eviction and re-fetch
                    {"name": "C03", "quick": 96, "thorough": 3000, "workers": 2, "config": "[network]\ncache_size = 1\n"},
@@ -167,7 +167,7 @@ PROPS = {
         "assumptions": ["servers unchanged between fetches (the `Env` is fixed)"],
     },
     "C04": {
-        "lean_modules": ["Props.Facts04", "Props.Facts04b"],
+        "lean_modules": ["Props.Facts04", "Props.Facts04b", "Props.Gen04", "Props.GenT04"],
         "groups": [{"name": "C04", "quick": 1200, "thorough": 30000, "workers": 8},
                    # redirect worlds (non-https hops, relative and cross-host Locations): what goes on the wire there
                    {"name": "C03", "quick": 400, "thorough": 10000, "workers": 8},
@@ -185,7 +185,7 @@ PROPS = {
         "shrink_budget": 4,
     },
     "C05": {
-        "lean_modules": ["Props.Facts04"],
+        "lean_modules": ["Props.Facts04", "Props.Gen04", "Props.GenT04"],
         "groups": [{"name": "C05", "quick": 160, "thorough": 6000, "workers": 16, "config": "[network]\ntimeout_seconds = 1\n"},
                    # the same faults under another timeout: the bounds are stated in the configured value, and a
                    # response that needs 1.0..1.4 s is a document there
@@ -403,9 +403,9 @@ MANIFEST_TEXT = {
         "technique": "Lean 4 proof (structural recursion on the redirect budget, cache soundness invariant) + differential correspondence against a TLS simulator",
     },
     "C04": {
-        "text": "Lean theorems about the byte template of the only connection.Write: for CR/LF-free request-URI, host and accept the bytes parse (with a strict HTTP/1.0 reader) as exactly one GET with a Host and an Accept header and nothing after the blank line; connections are opened only for https URLs on every hop. Tied to jtp.go/client.go by recording the raw bytes of every connection at a TLS simulator (plus a plaintext canary) for hostile URLs and webfinger handles and comparing them with the template. Partial: TLS, DNS, sockets are not modelled.",
+        "text": "Lean theorems about the byte template of the only connection.Write: for CR/LF-free request-URI, host and accept the bytes parse (with a strict HTTP/1.0 reader) as exactly one GET with a Host and an Accept header and nothing after the blank line; connections are opened only for https URLs on every hop. Tied to jtp.go twice: the statements of Get before the response is read - the cache key and lookup, the scheme test, the dial target, the deadline, the one connection.Write - are translated to Lean on every run (extract/go2lean18.go -> Generated/GoJtpfront.lean: a record of what is dialled, given a deadline, written and closed, in program order) and proved to write exactly the model's request to JoinHostPort(Hostname, Port or 443), never to dial for another scheme, and to be one step of the model's get (Props/Gen04.lean), and the theorems are restated about the code as translated (Props/GenT04.lean); and to jtp.go/client.go by recording the raw bytes of every connection at a TLS simulator (plus a plaintext canary) for hostile URLs and webfinger handles and comparing them with the template. Partial: TLS, DNS, sockets are not modelled.",
         "design_ref": "DESIGN.md §5 C04",
-        "note": "Trusted: Lean kernel; correspondence check (testing); net/url control-byte rejection; crypto/tls; DNS.",
+        "note": "Trusted: Lean kernel; the translator extract/go2lean18.go and its semantics library (Model/GoNet.lean: a *url.URL as the record of what its accessors return, net.JoinHostPort transcribed); correspondence check (testing); net/url control-byte rejection; crypto/tls; DNS.",
         "technique": "Lean 4 proof (byte-level request contract) + differential correspondence on recorded connection bytes",
     },
     "C05": {
